@@ -334,7 +334,7 @@ def unit_cases(ctx, k):
 
 def run(ctx):
     n = 0
-    nf = 60 if ctx.tier == 'quick' else 2500
+    nf = 60 if ctx.tier == 'quick' else 8000
     for j in range(nf):
         seed = f'{ctx.seed}:{ctx.shard}:f{j}'
         if file_case(ctx, seed, ctx.tier):
